@@ -173,3 +173,6 @@ func TestC01(t *testing.T) {
 		return h
 	}, propC01)
 }
+
+// TestC01Large: see heldBackHistories.
+func TestC01Large(t *testing.T) { runHeldBack(t, hC01, "TestC01", propC01) }
